@@ -111,7 +111,7 @@ func fmtIssues(dir string) string {
 }
 
 // runGoagDir runs the generator on a spec into an explicit output directory (C19 histories).
-func runGoagDir(work, outDir, specName string, spec []byte, client, noAPI bool) (res GenResult) {
+func runGoagDir(work, outDir, specName string, spec []byte, client, noAPI, doNotEdit bool) (res GenResult) {
 	goagMu.Lock()
 	defer goagMu.Unlock()
 	specDir := filepath.Join(work, "specs", specName)
@@ -125,7 +125,7 @@ func runGoagDir(work, outDir, specName string, spec []byte, client, noAPI bool) 
 			res.Detail = fmt.Sprint(r) + "\n" + string(debug.Stack())
 		}
 	}()
-	g := goag.Generator{GenClient: client, GenAPIHandler: !noAPI, DoNotEdit: true}
+	g := goag.Generator{GenClient: client, GenAPIHandler: !noAPI, DoNotEdit: doNotEdit}
 	err := g.GenerateFile(outDir, "p", res.SpecPath, "", filepath.Join(specDir, ".goag.yaml"), "")
 	if err != nil {
 		res.Outcome = "error"
